@@ -29,6 +29,7 @@ cp $DEMO $W/$SUB/zz_seed_demo_test.go
 echo "== with patch: demo"
 (cd $W/$SUB && go test -vet=off -count=1 -timeout 300s -run 'Demo|demo|C[0-9][0-9]' . 2>&1 | grep -v "^=== RUN\|^    " | tail -6)
 git -C /repo worktree remove --force $W
+if [ -n "$(git -C /repo status --porcelain)" ]; then echo "/repo is dirty: commit first"; exit 3; fi
 echo "== our check ($PROP quick) with the patch on /repo"
 git -C /repo apply $OUT/patch.diff && (cd /verif && bin/check $PROP quick 2>&1 | grep "VIOLATION\|SUMMARY\|KNOWN" | cut -c1-200 | head -8); git -C /repo checkout -- .
 git -C /repo status --short | head -3
